@@ -122,6 +122,9 @@ def multichain_force_fanout(A):
             why = 'the request or its flags are changed on the way' if not ok else ''
         else:
             why = 'the call is conditional or missing'
+    handlers = [n for n in inl(A, ff) if isinstance(n, ast.ExceptHandler) and not any(isinstance(x, ast.Raise) for st in n.body for x in ast.walk(st))]
+    if ok and handlers:
+        ok, why = False, f'an exception handler ({src(handlers[0].type) if handlers[0].type is not None else "bare"}) swallows the failure of a member chain: the request returns normally although some chains were not forced'
     return ok, why
 
 
@@ -139,34 +142,54 @@ def run(A, R: Report, thorough: bool):
     R.rule('R13.1', 'the registry is created once in MultiChain.__init__ and the same attribute is passed to every Chain(...); each config gets its own chain, unconditionally', floor=3)
     reg_stores = [(f, n) for f in mc.methods.values() for n in A.typer.own_nodes(f) if isinstance(n, (ast.Assign, ast.AnnAssign)) and
                   any(isinstance(t, ast.Attribute) and src(t.value) == 'self' and isinstance(getattr(n, 'value', None), (ast.Dict,)) and not n.value.keys for t in (n.targets if isinstance(n, ast.Assign) else [n.target]))]
-    ctors = [n for n in inl(A, fprep) if isinstance(n, ast.Call) and src(n.func) == 'Chain']
-    R.require(ctors, 'anchor: Chain(...) construction missing in MultiChain._prepare')
     cinit0 = chain.methods.get('__init__')
     cfgp = A.cfg(fprep)
-    for c in ctors:
-        ba = bound_args(c, cinit0) or {}
-        regx = subst_single_assign(A, fprep, ba.get('shared_tasks')) if ba.get('shared_tasks') is not None else None
-        pmx = subst_single_assign(A, fprep, ba.get('parameter_mode')) if ba.get('parameter_mode') is not None else None
-        reg = src(regx) if regx is not None else None
-        pm = src(pmx) if pmx is not None else None
-        attr = reg.split('.', 1)[1] if reg and reg.startswith('self.') else None
-        created_once = attr is not None and sum(1 for f, n in reg_stores if any(src(t) == reg for t in (n.targets if isinstance(n, ast.Assign) else [n.target]))) == 1 and \
-            all(f is finit for f, n in reg_stores if any(src(t) == reg for t in (n.targets if isinstance(n, ast.Assign) else [n.target])))
-        other_stores = [(f, n) for f in mc.methods.values() for n in A.typer.own_nodes(f) if isinstance(n, ast.Assign) and any(src(t) == reg for t in n.targets) and f is not finit]
-        R.check(created_once and not other_stores, 'R13.1', f'MultiChain._prepare: `{src(c)[:60]}`', key_of('registry', reg, created_once, len(other_stores)), f'every chain receives `{reg}` created once in __init__',
-                f'member chains do not all receive one registry object (`{reg}`): identical computations are separate objects per chain', where=where(fprep, c))
-        R.check(pm == 'self.parameter_mode', 'R13.1', 'MultiChain._prepare: parameter_mode', key_of('pm', pm), 'parameter_mode forwarded', 'parameter_mode is not forwarded to the member chains', where=where(fprep, c))
     loops = [n for n in inl(A, fprep) if isinstance(n, ast.For) and 'configs' in src(n.iter)]
     R.require(loops, 'anchor: loop over the configs missing in MultiChain._prepare')
+    member_stores = [n for lp in loops for n in ast.walk(lp) if isinstance(n, ast.Assign) and isinstance(n.targets[0], ast.Subscript) and src(n.targets[0].value) == 'self.chains']
+    R.require(member_stores, 'anchor: no store into self.chains in MultiChain._prepare')
+    atm = A.sym.terms_at(fprep, ('inst', mc), [n.value for n in member_stores])
+
+    def chain_ctor(t):
+        """(positional args, keyword args) when the term is a construction of Chain (directly or through Config.chain)"""
+        if t[0] == 'new' and t[1] == 'Chain':
+            return list(t[2]), dict(t[3])
+        if t[0] == 'call' and t[1].split('.')[-1] == 'Chain':
+            return [x for x in t[2] if x[0] != 'kw'], {x[1]: x[2] for x in t[2] if x[0] == 'kw'}
+        return None
+
+    pnames = [p_ for p_ in cinit0.params if p_ != 'self']
+    for n in member_stores:
+        terms = atm.get(id(n.value), [])
+        ctors = [chain_ctor(t) for t in terms]
+        if not terms or any(c is None for c in ctors):
+            fresh = False
+            reg = pm = cfg_t = None
+        else:
+            fresh = True
+            pos, kw = ctors[0]
+            bound = dict(zip(pnames, pos))
+            bound.update(kw)
+            reg, pm, cfg_t = bound.get('shared_tasks'), bound.get('parameter_mode'), bound.get('config')
+        regs = pretty(reg) if reg is not None else None
+        attr = reg[2] if reg is not None and reg[0] == 'attr' and reg[1] == ('self',) else None
+        rsrc = f'self.{attr}' if attr else None
+        created_once = attr is not None and sum(1 for f, st in reg_stores if any(src(t) == rsrc for t in (st.targets if isinstance(st, ast.Assign) else [st.target]))) == 1 and \
+            all(f is finit for f, st in reg_stores if any(src(t) == rsrc for t in (st.targets if isinstance(st, ast.Assign) else [st.target])))
+        other_stores = [(f, st) for f in mc.methods.values() for st in A.typer.own_nodes(f) if isinstance(st, ast.Assign) and any(src(t) == rsrc for t in st.targets) and f is not finit]
+        R.check(fresh and created_once and not other_stores, 'R13.1', f'MultiChain._prepare: `{src(n.value)[:60]}`', key_of('registry', regs, fresh, created_once, len(other_stores)), f'every chain receives `{regs}` created once in __init__',
+                f'member chains do not all receive one registry object (`{regs}`): identical computations are separate objects per chain', witness=[pretty(t)[:200] for t in terms[:2]], where=where(fprep, n))
+        R.check(pm == ('attr', ('self',), 'parameter_mode'), 'R13.1', 'MultiChain._prepare: parameter_mode', key_of('pm', pretty(pm) if pm is not None else None), 'parameter_mode forwarded',
+                f'the MultiChain\'s parameter_mode is not forwarded to the member chains (they are built with `{pretty(pm) if pm is not None else "the default"}`): members store and share differently from the standalone chains of that mode', where=where(fprep, n))
     for lp in loops:
-        stores = []
-        for n in ast.walk(lp):
-            if isinstance(n, ast.Assign) and isinstance(n.targets[0], ast.Subscript) and src(n.targets[0].value) == 'self.chains':
-                v = subst_single_assign(A, fprep, n.value)
-                if isinstance(v, ast.Call) and src(v.func) == 'Chain':
-                    stores.append((n, v))
-        uncond = all(loop_unconditional(cfgp, lp, n) for n, v in stores) and loop_runs_to_end(lp)
-        arg_ok = all(isinstance(lp.target, ast.Name) and (bound_args(v, cinit0) or {}).get('config') is not None and src((bound_args(v, cinit0) or {}).get('config')) == lp.target.id for n, v in stores)
+        stores = [n for n in member_stores if any(x is n for x in ast.walk(lp))]
+        uncond = all(loop_unconditional(cfgp, lp, n) for n in stores) and loop_runs_to_end(lp)
+        arg_ok = True
+        for n in stores:
+            for t in atm.get(id(n.value), []):
+                c = chain_ctor(t)
+                first = (c[0][0] if c and c[0] else (c[1].get('config') if c else None))
+                arg_ok = arg_ok and first is not None and first[0] == 'var'
         rebound = any(isinstance(x, ast.Name) and isinstance(x.ctx, ast.Store) and isinstance(lp.target, ast.Name) and x.id == lp.target.id for st in lp.body for x in ast.walk(st))
         R.check(len(stores) == 1 and uncond and arg_ok and not rebound, 'R13.1', 'MultiChain._prepare: member loop', key_of('member-loop', len(stores), uncond, arg_ok), 'one new Chain per config, unconditionally',
                 'not every config gets its own freshly built chain (conditional / de-duplicated construction): a member can be another config\'s chain', where=where(fprep, lp))
@@ -209,6 +232,9 @@ def run(A, R: Report, thorough: bool):
     from .keyterm import KeyTerms
     R.rule('R13.3c', 'the storage key used for sharing covers every Task-valued input of the task', floor=1)
     check_input_map(A, R, 'R13.3c', KeyTerms(A))
+    from .c01 import check_parameter_copy
+    R.rule('R13.3d', 'the per-task parameter config (source of the sharing key) copies every declared parameter under the name it is looked up by', floor=1)
+    check_parameter_copy(A, R, 'R13.3d')
 
     # ---- R13.4
     R.rule('R13.4', 'MultiChain.force calls chain.force(<the same tasks>, **kwargs) on every chain, unconditionally', floor=1)
